@@ -82,13 +82,18 @@ theorem writeAt_init_irrelevant (ts : List τ) (addr : τ → Nat) (val : τ →
 end closed
 
 /-! ### transposition -/
-section transpose
-variable {τ α : Type} [CommSemiring α]
+section listsum
+variable {α : Type} [AddCommMonoid α]
 
 theorem list_sum_map_range (f : Nat → α) (n : Nat) : ((List.range n).map f).sum = ∑ i ∈ range n, f i := by
   induction n with
   | zero => simp
   | succ n ih => simp [List.range_succ, Finset.sum_range_succ, ih]
+
+end listsum
+
+section transpose
+variable {τ α : Type} [CommSemiring α]
 
 /-- `Σ_{j<n} (Σ_{t ∈ ts, addr t = j} val t) · x j = Σ_{t ∈ ts} val t · x (addr t)` when every address is `< n` -/
 theorem sum_scatter_mul (ts : List τ) (addr : τ → Nat) (val : τ → α) (x : Nat → α) (n : Nat)
@@ -157,7 +162,7 @@ theorem bcast_idx_lt {b B i M skip Bx : Nat} (hb : b < B) (hi : i < M)
   · exact idx_lt (lt_of_lt_of_le hb hB) hi
 
 section sums
-variable {α : Type} [CommSemiring α]
+variable {α : Type} [AddCommMonoid α]
 
 /-- a sum over the two-level nest is the flat sum -/
 theorem sum_range2_flat (n m : Nat) (g : Nat → α) :
@@ -175,4 +180,248 @@ theorem sum_range2 (n m : Nat) (f : Nat × Nat → α) :
 end sums
 end nests
 
+end Primitiv.Arith
+
+/-! ### the shape of every local adjoint law -/
+namespace Primitiv.Arith
+open Finset
+section adjoint
+variable {τ α : Type} [CommRing α]
+
+theorem scatterSubAt_eq_add_neg (ts : List τ) (addr : τ → Nat) (val : τ → α) (g0 : α) (j : Nat) :
+    scatterSubAt ts addr val g0 j = scatterAddAt ts addr (fun t => -val t) g0 j := by
+  rw [scatterSubAt_eq, scatterAddAt_eq, sub_eq_add_neg]
+  congr 1
+  induction (ts.filter fun t => addr t = j) with
+  | nil => simp
+  | cons a rest ih => simp [ih, add_comm]
+
+/-- one accumulator: `Σ_j (g'[j] − g[j]) · dx[j] = Σ_t val t · dx[addr t]` -/
+theorem scatter_adjoint (ts : List τ) (addr : τ → Nat) (val : τ → α) (g dx : Nat → α) (n : Nat)
+    (h : ∀ t ∈ ts, addr t < n) :
+    ∑ j ∈ range n, (scatterAddAt ts addr val (g j) j - g j) * dx j = (ts.map fun t => val t * dx (addr t)).sum := by
+  simp only [scatterAddAt_eq, add_sub_cancel_left]
+  exact sum_scatter_mul ts addr val dx n h
+
+/-- two accumulators updated by the same loop -/
+theorem scatter_pair_adjoint (ts : List τ) (ia ib : τ → Nat) (va vb : τ → α) (ga gb da db : Nat → α) (na nb : Nat)
+    (ha : ∀ t ∈ ts, ia t < na) (hb : ∀ t ∈ ts, ib t < nb) :
+    ∑ j ∈ range na, (scatterAddAt ts ia va (ga j) j - ga j) * da j
+      + ∑ j ∈ range nb, (scatterAddAt ts ib vb (gb j) j - gb j) * db j
+      = (ts.map fun t => va t * da (ia t) + vb t * db (ib t)).sum := by
+  rw [scatter_adjoint ts ia va ga da na ha, scatter_adjoint ts ib vb gb db nb hb]
+  induction ts with
+  | nil => simp
+  | cons a rest ih =>
+    have ha' : ∀ t ∈ rest, ia t < na := fun t ht => ha t (by simp [ht])
+    have hb' : ∀ t ∈ rest, ib t < nb := fun t ht => hb t (by simp [ht])
+    simp only [List.map_cons, List.sum_cons]
+    rw [← ih ha' hb']
+    ring
+
+/-- reading a scatter-add result against a cotangent: `Σ_n gy[n] · (0 + Σ_{t, addr t = n} val t) = Σ_t gy[addr t] · val t` -/
+theorem gather_adjoint (ts : List τ) (addr : τ → Nat) (val : τ → α) (gy : Nat → α) (n : Nat)
+    (h : ∀ t ∈ ts, addr t < n) :
+    ∑ j ∈ range n, gy j * scatterAddAt ts addr val 0 j = (ts.map fun t => gy (addr t) * val t).sum := by
+  have := scatter_adjoint ts addr val (fun _ => (0 : α)) gy n h
+  simp only [sub_zero] at this
+  rw [← List.map_congr_left (fun t _ => mul_comm (val t) (gy (addr t))), ← this]
+  exact Finset.sum_congr rfl fun j _ => mul_comm _ _
+
+end adjoint
+end Primitiv.Arith
+
+/-! ### grouping a scatter loop by output cell; deeper nests; window maximum -/
+namespace Primitiv.Arith
+open Finset
+
+section group
+variable {σ τ α : Type} [AddCommMonoid α]
+
+theorem list_sum_filter_map (l : List τ) (p : τ → Prop) [DecidablePred p] (v : τ → α) :
+    ((l.filter fun t => p t).map v).sum = (l.map fun t => if p t then v t else 0).sum := by
+  induction l with
+  | nil => simp
+  | cons a rest ih =>
+    by_cases h : p a
+    · simp [h, ih]
+    · simp [h, ih]
+
+theorem list_sum_filter_map_bool (l : List τ) (p : τ → Bool) (v : τ → α) :
+    ((l.filter p).map v).sum = (l.map fun t => if p t then v t else 0).sum := by
+  induction l with
+  | nil => simp
+  | cons a rest ih =>
+    by_cases h : p a
+    · simp [h, ih]
+    · simp [h, ih]
+
+/-- A loop nest `for s in outer: for t in inner s: buf[oaddr s] += v t` whose outer addresses are pairwise
+distinct: the contributions that reach the cell of `s0` are exactly those of `inner s0`. -/
+theorem scatter_group_sum (outer : List σ) (inner : σ → List τ) (oaddr : σ → Nat) (ya : τ → Nat) (v : τ → α)
+    (hya : ∀ s ∈ outer, ∀ t ∈ inner s, ya t = oaddr s) (hnd : (outer.map oaddr).Nodup)
+    {s0 : σ} (hs0 : s0 ∈ outer) :
+    (((outer.flatMap inner).filter fun t => ya t = oaddr s0).map v).sum = ((inner s0).map v).sum := by
+  induction outer with
+  | nil => simp at hs0
+  | cons s rest ih =>
+    rw [List.map_cons, List.nodup_cons] at hnd
+    rw [List.flatMap_cons, List.filter_append, List.map_append, List.sum_append]
+    have hrest : ∀ s' ∈ rest, ∀ t ∈ inner s', ya t = oaddr s' := fun s' hs' => hya s' (by simp [hs'])
+    by_cases h : oaddr s = oaddr s0
+    · -- then s0 is s itself (or has the same address, which is excluded for the tail)
+      have hnot : s0 ∉ rest := fun hm => hnd.1 (h ▸ List.mem_map.mpr ⟨s0, hm, rfl⟩)
+      have hs : s0 = s := by
+        rcases List.mem_cons.mp hs0 with r | r
+        · exact r
+        · exact absurd r hnot
+      subst hs
+      have h1 : ((inner s0).filter fun t => ya t = oaddr s0) = inner s0 :=
+        List.filter_eq_self.mpr fun t ht => by simpa using hya s0 (by simp) t ht
+      have h2 : ((rest.flatMap inner).filter fun t => ya t = oaddr s0) = [] := by
+        rw [List.filter_eq_nil_iff]
+        intro t ht
+        obtain ⟨s', hs', ht'⟩ := List.mem_flatMap.mp ht
+        have : ya t = oaddr s' := hrest s' hs' t ht'
+        simp only [decide_eq_true_eq]
+        intro heq
+        exact hnd.1 (List.mem_map.mpr ⟨s', hs', by rw [← this, heq]⟩)
+      rw [h1, h2]; simp
+    · have hs : s0 ∈ rest := by
+        rcases List.mem_cons.mp hs0 with r | r
+        · exact absurd (r ▸ rfl) h
+        · exact r
+      have h1 : ((inner s).filter fun t => ya t = oaddr s0) = [] := by
+        rw [List.filter_eq_nil_iff]
+        intro t ht
+        simp only [decide_eq_true_eq]
+        rw [hya s (by simp) t ht]
+        exact h
+      rw [h1, ih hrest hnd.2 hs]; simp
+
+end group
+
+section nests3
+
+theorem range3_succ (n m l : Nat) :
+    range3 (n + 1) m l = range3 n m l ++ (range2 m l).map fun p => (n, p.1, p.2) := by
+  simp [range3, range2, List.range_succ, List.flatMap_append, List.map_flatMap, Function.comp_def]
+
+theorem range3_map_flat {β : Type} (n m l : Nat) (g : Nat → β) :
+    (range3 n m l).map (fun t => g (t.1 * (m * l) + (t.2.1 * l + t.2.2))) = (List.range (n * (m * l))).map g := by
+  induction n with
+  | zero => simp [range3]
+  | succ n ih =>
+    rw [range3_succ, List.map_append, ih, Nat.succ_mul, List.range_add, List.map_append, List.map_map, List.map_map]
+    congr 1
+    exact range2_map_flat m l fun r => g (n * (m * l) + r)
+
+theorem range3_addr (n m l : Nat) :
+    (range3 n m l).map (fun t => t.1 * (m * l) + (t.2.1 * l + t.2.2)) = List.range (n * (m * l)) := by
+  simpa using range3_map_flat n m l id
+
+theorem range4_succ (n m l p : Nat) :
+    range4 (n + 1) m l p = range4 n m l p ++ (range3 m l p).map fun t => (n, t) := by
+  simp [range4, List.range_succ, List.flatMap_append]
+
+theorem mem_range4 {n m l p : Nat} {t : Nat × Nat × Nat × Nat} :
+    t ∈ range4 n m l p ↔ t.1 < n ∧ t.2.1 < m ∧ t.2.2.1 < l ∧ t.2.2.2 < p := by
+  obtain ⟨a, b, c, d⟩ := t
+  simp [range4, List.mem_flatMap, List.mem_map, List.mem_range, mem_range3]
+
+theorem range4_map_flat {β : Type} (n m l p : Nat) (g : Nat → β) :
+    (range4 n m l p).map (fun t => g (t.1 * (m * (l * p)) + (t.2.1 * (l * p) + (t.2.2.1 * p + t.2.2.2))))
+      = (List.range (n * (m * (l * p)))).map g := by
+  induction n with
+  | zero => simp [range4]
+  | succ n ih =>
+    rw [range4_succ, List.map_append, ih, Nat.succ_mul, List.range_add, List.map_append, List.map_map, List.map_map]
+    congr 1
+    exact range3_map_flat m l p fun r => g (n * (m * (l * p)) + r)
+
+theorem range4_addr (n m l p : Nat) :
+    (range4 n m l p).map (fun t => t.1 * (m * (l * p)) + (t.2.1 * (l * p) + (t.2.2.1 * p + t.2.2.2)))
+      = List.range (n * (m * (l * p))) := by
+  simpa using range4_map_flat n m l p id
+
+theorem mem_matIts {bs d1 d2 d3 : Nat} {t : MatIt} :
+    t ∈ matIts bs d1 d2 d3 ↔ t.bn < bs ∧ t.k < d3 ∧ t.i < d1 ∧ t.j < d2 := by
+  obtain ⟨bn, k, i, j⟩ := t
+  simp only [matIts, List.mem_flatMap, List.mem_map, List.mem_range, mem_range3, MatIt.mk.injEq, Prod.exists]
+  constructor
+  · rintro ⟨a, b, c, ⟨h1, h2, h3⟩, j', hj, rfl, rfl, rfl, rfl⟩
+    exact ⟨h1, h2, h3, hj⟩
+  · rintro ⟨h1, h2, h3, h4⟩
+    exact ⟨bn, k, i, ⟨h1, h2, h3⟩, j, h4, rfl, rfl, rfl, rfl⟩
+
+end nests3
+
+section wmax
+variable {α : Type} [LinearOrder α]
+
+/-- the running maximum of a window: an upper bound of `lowest` and of every value, and one of them -/
+theorem windowMax_spec (lowest : α) (vals : List α) :
+    lowest ≤ windowMax lowest vals ∧ (∀ v ∈ vals, v ≤ windowMax lowest vals) ∧
+      (windowMax lowest vals = lowest ∨ windowMax lowest vals ∈ vals) := by
+  unfold windowMax
+  induction vals generalizing lowest with
+  | nil => simp
+  | cons a rest ih =>
+    rw [List.foldl_cons]
+    by_cases h : a > lowest
+    · rw [if_pos h]
+      obtain ⟨h1, h2, h3⟩ := ih a
+      refine ⟨le_trans (le_of_lt h) h1, ?_, ?_⟩
+      · intro v hv
+        rcases List.mem_cons.mp hv with rfl | hr
+        · exact h1
+        · exact h2 v hr
+      · rcases h3 with h3 | h3
+        · right; rw [h3]; simp
+        · right; exact List.mem_cons_of_mem _ h3
+    · rw [if_neg h]
+      obtain ⟨h1, h2, h3⟩ := ih lowest
+      refine ⟨h1, ?_, ?_⟩
+      · intro v hv
+        rcases List.mem_cons.mp hv with rfl | hr
+        · exact le_trans (not_lt.mp h) h1
+        · exact h2 v hr
+      · rcases h3 with h3 | h3
+        · left; exact h3
+        · right; exact List.mem_cons_of_mem _ h3
+
+end wmax
+
+end Primitiv.Arith
+
+/-! ### what a batch-shared / batch-strided accumulator receives -/
+namespace Primitiv.Arith
+open Finset
+section batch
+variable {α : Type} [AddCommMonoid α]
+
+/-- stride 0 (operand with batch 1): cell `i` receives the contributions of every sample -/
+theorem scatter_shared_sum (bs size : Nat) (v : Nat × Nat → α) (g0 : α) {i : Nat} (hi : i < size) :
+    scatterAddAt (range2 bs size) (fun t => t.1 * 0 + t.2) v g0 i = g0 + ∑ b ∈ range bs, v (b, i) := by
+  rw [scatterAddAt_eq, list_sum_filter_map, sum_range2]
+  congr 1
+  apply Finset.sum_congr rfl
+  intro b _
+  simp only [Nat.mul_zero, Nat.zero_add]
+  rw [Finset.sum_ite_eq' (range size) i fun c => v (b, c)]
+  simp [hi]
+
+/-- full stride: cell `(b, i)` receives exactly its own contribution -/
+theorem scatter_batched (bs size : Nat) (v : Nat × Nat → α) (g0 : α) {b i : Nat} (hb : b < bs) (hi : i < size) :
+    scatterAddAt (range2 bs size) (fun t => t.1 * size + t.2) v g0 (b * size + i) = g0 + v (b, i) := by
+  rw [scatterAddAt_eq]
+  congr 1
+  have h := scatter_group_sum (α := α) (range2 bs size) (fun s => [s]) (fun t => t.1 * size + t.2)
+    (fun t => t.1 * size + t.2) v (by intro s _ t ht; simp at ht; rw [ht]) (range2_addr_nodup bs size)
+    (s0 := (b, i)) (mem_range2.mpr ⟨hb, hi⟩)
+  have hf : (range2 bs size).flatMap (fun s => [s]) = range2 bs size := by simp
+  rw [hf] at h
+  simpa using h
+
+end batch
 end Primitiv.Arith
